@@ -256,6 +256,11 @@ func dispatchConnection(conn net.Conn, sta *State) {
 	preparedConn, err := finishHandshake(conn, sesh.GetSessionKey(), sta.WorldState.Rand)
 	if err != nil {
 		log.Error(err)
+		if !existing {
+			// this goroutine was to serve the new session; without it the session would stay registered for ever
+			// and every later connection with the same session id would join a session nobody serves
+			user.CloseSession(ci.SessionId, "failed to finish the handshake of the session's first connection")
+		}
 		return
 	}
 	log.Trace("finished handshake")
